@@ -1,7 +1,7 @@
 CONSTANTS
-  N = 1
+  N = 2
   MaxCalls = 6
-  ErrClosesNext = TRUE
+  ErrClosesNext = FALSE
 SPECIFICATION Spec
 INVARIANTS ResultsOK ErrOK NoSendOnClosed PinOK
 PROPERTIES NextReturns ProducerExits
